@@ -419,6 +419,16 @@ func gen(c *harness.C) []harness.Case {
 			},
 			rp: func(ch []int) replay { return replay{Family: name, Variant: v, Choices: ch} }})
 	}
+	for _, v := range []string{"three", "two-of-three", "duplicated"} {
+		v := v
+		name := "disc/" + v
+		fams = append(fams, fam{name: name, bound: b3,
+			run: func(c *harness.C, r *explore.Recorder) ([]string, bool, []string) {
+				o := discRun(c, v, r)
+				return o.trace, o.deadlock, o.unfin
+			},
+			rp: func(ch []int) replay { return replay{Family: name, Variant: v, Choices: ch} }})
+	}
 	var cases []harness.Case
 	for _, f := range fams {
 		for k := 0; k < shards; k++ {
